@@ -2,6 +2,7 @@ import CookModel.Side.Builder
 import CookModel.Lemmas.BuilderFinish
 import CookModel.Lemmas.BuilderLayers
 import CookModel.Lemmas.BuilderDeclared
+import CookModel.Lemmas.BuilderOrder
 /-
   C16  Converters built from configuration layers are consistent or rejected.
 
@@ -242,6 +243,53 @@ theorem C16_fraction_layers {α : Type} (fs : List (FractionsDecl α)) (f : Frac
   refine ⟨fun sel acc => lastLayer_append sel fs f acc, ?_, fun m k k' v => mapGet_mapInsert m k k' v⟩
   intro m q
   rw [quantityLayers_append, quantityLayer_get]
+
+/-! ### Iteration order of an extend block -/
+
+/-- the keys an entry of an extend block touches in state `c`: the keys it removes (the addressed unit's and its
+    expansions') and the keys it adds (the edited unit's and its re-generated expansions'); an unknown key touches itself -/
+def C16_touchedKeys {α : Type} [Arith α] (si : SIConf) (c : Core α) (pr : Prec) (ke : Key × ExtendEntry α) : List Key :=
+  match idxGet c.index ke.1 with
+  | none => [ke.1]
+  | some id =>
+    match c.units[id]? with
+    | none => []
+    | some u =>
+      let kids : List Key := match u.expanded, si.prefixes, si.symbolPrefixes with
+        | some _, some pfx, some sym => SIPrefix.all.flatMap (fun p => (expandOne (u.edit pr ke.2) pfx sym p).unit.keys)
+        | _, _, _ => []
+      removedKeys c.units u ++ (u.edit pr ke.2).unit.keys ++ kids
+
+/-- The full statement of the order clause (DESIGN.md §6 C16 `extend_order`): for a block whose entries touch pairwise
+    disjoint key sets, every iteration order of its hash map has the same outcome — the same units and lookups, or an
+    error in every order.  NOT proved in full (see `C16_extend_order_partial`). -/
+def C16_extend_order_statement : Prop :=
+  ∀ (si : SIConf) (c : Core Rat) (g g' : Extend Rat), Ready c → SIInv si c.units →
+    g'.precedence = g.precedence → g'.units.Perm g.units →
+    g.units.Pairwise (fun a b => ∀ k, k ∈ C16_touchedKeys si c g.precedence a → k ∉ C16_touchedKeys si c g.precedence b) →
+    (∃ c1 c2, applyExtendGroup si c g = .ok c1 ∧ applyExtendGroup si c g' = .ok c2 ∧ CoreEq c1 c2) ∨
+    (∃ e1 e2, applyExtendGroup si c g = .error e1 ∧ applyExtendGroup si c g' = .error e2)
+
+/-- What is proved of it, without any disjointness premise and for every arithmetic instance: two iteration orders of
+    the same block that BOTH succeed yield the same units and the same index (as a lookup function) — the result of a
+    successful block is a function of the block as a set of entries.  What is missing for the full statement: that
+    under the disjointness premise success itself does not depend on the order (without the premise it can: with
+    `override`, `{a: names=[x]}`, `{b: names=[old name of a]}` succeeds only when `a` is edited first; both outcomes
+    satisfy the property, which allows "a build error or a consistent converter"). -/
+theorem C16_extend_order_partial {α : Type} [Arith α] (si : SIConf) (c c1 c2 : Core α) (g g' : Extend α)
+    (hc : Ready c) (hsi : SIInv si c.units) (hprec : g'.precedence = g.precedence) (hperm : g'.units.Perm g.units)
+    (h1 : applyExtendGroup si c g = .ok c1) (h2 : applyExtendGroup si c g' = .ok c2) :
+    c1.units = c2.units ∧ ∀ k, idxGet c1.index k = idxGet c2.index k :=
+  applyExtendGroup_order_unique si c c1 c2 g g' hc hsi hprec hperm h1 h2
+
+/-- The premises `Ready` and `SIInv` of the order theorem hold for every state `finish` applies a block to (here: the
+    state before the last layer's block; the same holds for every earlier block by `applyExtendGroups_good/_si`). -/
+theorem C16_extend_order_applies {α : Type} [Arith α] (fs : List (UnitsFile α)) (f : UnitsFile α) (g : Extend α) (conv : Converter α)
+    (hg : f.extend = some g) (h : build (fs ++ [f]) = .ok conv) :
+    ∃ b c c0, buildCore (fs ++ [f]) = .ok (b, c) ∧ Ready c0 ∧ SIInv b.si c0.units ∧ applyExtendGroup b.si c0 g = .ok c := by
+  obtain ⟨b, c, hbc, _, _⟩ := (build_good (fs ++ [f])).of_ok h
+  obtain ⟨c0, hr, hsi, ha⟩ := build_last_block_si fs f g hg b c hbc
+  exact ⟨b, c, c0, hbc, hr, hsi, ha⟩
 
 /-! ### The default converter -/
 
